@@ -7,7 +7,7 @@ ID = "C08"
 THEOREMS = [("FlatModel.Props.C01", "FC.C08.after_clear"), ("FlatModel.Props.C01", "FC.C08.sim_pushes")]
 THEOREMS += [("FlatModel.Props.Universe", "FC.Universe.C08_every_composition")]
 LEAN_TARGETS = ["FlatModel.Generated.Covered", "FlatModel.Generated.CoveredUniverse"]
-PROFILES = {"quick": ["checked"], "thorough": ["checked", "wrapping"], "search": ["checked"]}
+PROFILES = {"quick": ["checked", "wrapping"], "thorough": ["checked", "wrapping"], "search": ["checked"]}
 RULE = ("pairs (history, continuation): the continuation runs on the cleared region and on a twin Default::default(); returned "
         "indices and reads are compared step by step (impl vs impl, then vs the model); pre-histories leave dirt (collapsed last "
         "item equal to the first post-clear item, wide rows, strides broken); repeated clear/refill cycles; coded compositions are "
@@ -68,6 +68,20 @@ def cleared_coded(cat, rng, stack):
             b.s.lines[na].sig = "index-after-clear-differs@" + b.entry
             b.read("a", ka, sig="read-after-clear@" + b.entry)
         b.readall("a", sig="read-after-clear@" + b.entry)
+    # what the cleared region *learned* since the clear must be what the twin learned: the next generation built from
+    # either answers alike (a code table or statistics surviving the clear would show here)
+    seen = list(b.h["t"].vals)
+    if seen and b.stack is None:
+        b.merge("a2", ["a"])
+        b.merge("t2", ["t"])
+        for _ in range(2 + rng.below(5)):
+            v = rng.pick(seen)
+            f = b.form_for(v)
+            ka, na = b.push("a2", v, f)
+            kt, nt = b.push("t2", v, f)
+            b.s.lines[na].exp = ("same", nt)
+            b.s.lines[na].sig = "next-generation-after-clear-differs@" + b.entry
+            b.read("a2", ka, sig="read-after-clear@" + b.entry)
     return b.s
 
 
